@@ -2,21 +2,23 @@
 
 The property's own quantifier is *histories*.  Two domains:
 
-* exhaustive tree: every sequence of operation KINDS of length <= 3 (quick) / <= 4 (thorough) over the alphabet below on 7 seed
-  molecules; the parameters of each kind (which atom, which pair, which permutation ...) are a seeded choice per history prefix
-  (3 instances per kind for the first operation, 2 for the second, 1 afterwards);
+* exhaustive tree: every sequence of operation KINDS of length <= 3 on 7 seed molecules, the parameters of each kind (which atom,
+  which pair, which permutation ...) being a seeded choice per history prefix (3 instances per kind for the first operation, 2 for
+  the second, 1 afterwards); thorough tier adds every sequence of kinds of length <= 4 with (2, 1, 1, 1) instances;
 * 200 / 5000 seeded random histories of length 30 on corpus molecules (alphabet + the remaining public mutators of DESIGN 1.6).
 
 Between operations a seeded subset of the derived views is read (sometimes none, sometimes all) so that a stale cache entry is
 observable; after every operation ALL views are compared with a molecule rebuilt from scratch through add_atom/add_bond with the
-same atoms, bonds, hydrogen counts and stereo labels (`oracles/o13_views.rebuilt`).
+same atoms, bonds, hydrogen counts, stereo labels and insertion order (`oracles/o13_views.rebuilt`).
 
 Contracts (from the statement):
   coherent      every view of `o13_views.VIEWS`, every label written by calc_labels, on the edited molecule == on the rebuilt one;
                 the stereo labels are a fixed point of fix_stereo() on the rebuilt one (no label on a non-stereogenic centre);
                 `_changed is None and _backup is None` outside a transaction
   adjacency     same key sets in _atoms/_bonds, `_bonds[a][b] is _bonds[b][a]`
-  frame         the operation changed exactly the atoms/bonds it names (expected graph computed independently from the pre-state)
+  frame         the operation changed exactly the atoms/bonds it names (expected graph computed independently from the pre-state);
+                stereo labels survive operations that leave every centre's environment alone (add_atom, remap, union, copy,
+                whole-component substructure, explicify/implicify, failed transaction)
   hydrogens     atoms named by the operation get the count a fresh molecule computes; every other atom keeps its count or gets the
                 fresh one; explicify/implicify/thiele keep the per-atom / total hydrogen count
   atomic        a `with` block that raises restores the exact raw state (atoms, adjacency incl. insertion order, meta, name,
@@ -243,7 +245,6 @@ def apply_op(m, op):
             out.must = {n}
         elif kind == 'fail':
             _, variant, a = op
-            views0 = {k: v for k, v in m.__dict__.items() if k in ('sssr', 'rings_count', 'connected_components')}
             try:
                 with m:
                     if variant in ('add', 'mix'):
@@ -300,7 +301,6 @@ def apply_op(m, op):
             out.hmode = 'same'
             osa, osb = V.stereo_labels(other)
             out.stereo = ({**st_a, **{mp[n]: v for n, v in osa.items()}}, {**st_b, **{frozenset(mp[x] for x in k): v for k, v in osb.items()}})
-            h0 = hstate(m) if u is not m else None
             out.note = ('union', {mp[n]: h for n, h in oh.items()})
             if V.snapshot_diff(oraw, V.raw_snapshot(other)):
                 out.problems.append(('independent:union-changed-argument', f'other {op[1]} changed by union'))
@@ -384,7 +384,6 @@ def apply_op(m, op):
             out.hmode = 'sum'
             out.note = ('sum', h0)
         elif kind.startswith('x_'):
-            heavy0 = sorted(v[0] for v in atoms0.values() if v[0] != 1)
             getattr(m, kind[2:])()
             out.hmode = 'skip'
         else:
@@ -655,8 +654,6 @@ def step(st, op, reads, on_copy, full=True, check_names=None):
     watch = list(st.watch)
     for label, s in out.sources:
         watch.append((label, s, V.raw_snapshot(s)))
-    if on_copy:
-        pass  # the node object stays with the parent; nothing to watch here (the parent re-checks it through its views)
     for label, s, raw in watch:
         d = V.snapshot_diff(raw, V.raw_snapshot(s))
         if d:
@@ -726,8 +723,6 @@ def _descend(res, name, smi, st, ops, reads, copies, depth, widths, on_copy_firs
         res['keys'].add(_digest(hk))
         if len(res['samples']) < 2 and len(ops) == depth:
             res['samples'].append({'history': hk, 'reads_before_last_op': list(rd)[:6], 'result': V.read_view(st1.cur, 'str')})
-    if st1.cur is st.cur and not on_copy_first:
-        pass
     for f, d in probs:
         _record(res, f, d, name, smi, ops, reads, copies)
     if probs:
